@@ -22,9 +22,12 @@ ParameterEvent::ParameterEvent(Parameter* parameter) : parameter_(parameter) {}
 /** Constructors: *************************************************************/
 
 Parameter::Parameter(const std::string& name, double value, std::shared_ptr<ConstraintInterface> constraint, double precision) :
-  name_(name), value_(0), precision_(0), constraint_(constraint), listeners_()
+  name_(name), value_(value), precision_(0), constraint_(constraint), listeners_()
 {
-  setValue(value);
+  // The initial value is checked here and not through setValue(), which ignores
+  // a request equal to the current value (formerly 0) without testing the constraint.
+  if (constraint_ && !constraint_->isCorrect(value_))
+    throw ConstraintException("Parameter::Parameter", this, value_);
   setPrecision(precision);
 }
 
